@@ -58,8 +58,8 @@ static void make_buf(int id, uint8_t* b, size_t n) {
 struct ABuf { uint8_t* raw; uint8_t* p; size_t n; ABuf(size_t n_, size_t off) : n(n_) { if (posix_memalign((void**)&raw, 4096, n_ + 4096)) { perror("posix_memalign"); exit(2); } p = raw + off; } ~ABuf() { free(raw); } uint8_t* data() { return p; } bool eq(const std::vector<uint8_t>& v) const { return v.size() == n && !memcmp(p, v.data(), n); } };
 
 // generator state OVERLAPPING the output buffer (the repository's own test calls fillAes1Rx4(state, 64, state)): the software and the hardware
-// instantiation must leave bit-identical memory images for every 16-byte displacement of the state against the buffer; where the state coincides
-// with a whole output block the image must also be the one the model gives (blocks from the initial state, final state written last).
+// instantiation must leave bit-identical memory images for every 16-byte displacement of the state against the buffer; for the form the repository's own test uses
+// (state == buffer, 64 bytes) the image must also be the model's.
 static std::string alias_case(int seed_id, size_t size, long delta) {
 	const size_t PAD = 192, TOT = size + 2 * PAD; ABuf A(TOT, 0), B(TOT, 0);
 	for (size_t i = 0; i < TOT; ++i) A.data()[i] = B.data()[i] = (uint8_t)(i * 29 + 7);
@@ -67,7 +67,7 @@ static std::string alias_case(int seed_id, size_t size, long delta) {
 	uint8_t* outA = A.data() + PAD; uint8_t* outB = B.data() + PAD; memcpy(outA + delta, seed, 64); memcpy(outB + delta, seed, 64);
 	fillAes1Rx4<true>(outA + delta, size, outA); fillAes1Rx4<false>(outB + delta, size, outB);
 	if (memcmp(A.data(), B.data(), TOT)) { size_t k = 0; while (A.data()[k] == B.data()[k]) ++k; return "fillAes1Rx4 with the state at buffer" + std::string(delta < 0 ? "" : "+") + std::to_string(delta) + ": software and hardware paths leave different memory (first difference at buffer" + (k >= PAD ? "+" : "") + std::to_string((long)k - (long)PAD) + ")"; }
-	if (delta >= 0 && (size_t)delta + 64 <= size && delta % 64 == 0) {
+	if (delta == 0 && size == 64) {   // the one aliased form the repository itself uses (fillAes1Rx4(state, 64, state)): the image is unambiguous there; for the other displacements only the property's own clause (software == hardware) is demanded
 		std::vector<uint8_t> mo(size); alignas(16) uint8_t st[64]; memcpy(st, seed, 64); spec::fill_aes_1rx4(st, size, mo.data()); memcpy(mo.data() + delta, st, 64);
 		if (memcmp(outA, mo.data(), size)) return "fillAes1Rx4 with the state being output block " + std::to_string(delta / 64) + ": memory differs from AesGenerator1R (blocks from the initial state, final state stored last)";
 	}
@@ -177,7 +177,7 @@ int main(int argc, char** argv) {
 	vf::Evidence ev; ev.level = "exploration";
 	ev.coverage.set("evaluations", (unsigned long long)(total.n["round_cases"] + total.n["composite_cases"] + total.n["table_entries"] + total.n["alias_cases"]))
 		.set("distinct_nontrivial", (unsigned long long)(total.n["round_cases"] + total.n["composite_cases"])).set("exhaustive", !total.incomplete)
-		.set("rule", "single rounds: every 16-byte state with at most two non-zero bytes (all 120 position pairs x 255^2 values, all 16x255 single bytes, zero) with key 0, single-byte states with 19 keys: soft_aesenc/dec == _mm_aesenc/dec == aesenc<>/aesdec<> dispatch == FIPS-197 round computed from the GF(2^8) definition; all 2x4x256 T-table entries; composites: fillAes1Rx4, fillAes4Rx4, hashAes1Rx4, hashAndFillAes1Rx4 in both template instantiations == model, seeds {0, FF.., 512 one-hot, 3 generic} x sizes {64..4096 step 64, 4160, 8192, 65536, 256 KiB, 2 MiB (generic seeds)} x 5 buffer images x 2 buffer placements (128-byte aligned and 64 mod 128); combined step == (fingerprint of old content, refill, generator state); fillAes1Rx4 with the generator state overlapping the output buffer at every 16-byte displacement (6 sizes): software and hardware paths leave identical memory, and the model's image where the state is a whole output block");
+		.set("rule", "single rounds: every 16-byte state with at most two non-zero bytes (all 120 position pairs x 255^2 values, all 16x255 single bytes, zero) with key 0, single-byte states with 19 keys: soft_aesenc/dec == _mm_aesenc/dec == aesenc<>/aesdec<> dispatch == FIPS-197 round computed from the GF(2^8) definition; all 2x4x256 T-table entries; composites: fillAes1Rx4, fillAes4Rx4, hashAes1Rx4, hashAndFillAes1Rx4 in both template instantiations == model, seeds {0, FF.., 512 one-hot, 3 generic} x sizes {64..4096 step 64, 4160, 8192, 65536, 256 KiB, 2 MiB (generic seeds)} x 5 buffer images x 2 buffer placements (128-byte aligned and 64 mod 128); combined step == (fingerprint of old content, refill, generator state); fillAes1Rx4 with the generator state overlapping the output buffer at every 16-byte displacement (6 sizes): software and hardware paths leave identical memory, and the model's image for the form fillAes1Rx4(state, 64, state)");
 	ev.assumptions = { "the model's AES round is built from the FIPS-197 definitions (S-box from field inverse + affine map) and was checked against FIPS-197 appendix B at setup" };
 	return vf::finish(args, total, ev);
 }
